@@ -259,6 +259,11 @@ def fnClassFirst (D : List FnDecl) : FnClass :=
 def flagsFrozenRegion (ds : List Decl) : Bool :=
   (fnNames ds).any (fun f => fnClass (fnDecls ds f) != fnClassFirst (fnDecls ds f))
 
+/-- the part of `flagsFrozenRegion` that can reach the symbol table: the function is defined in the unit
+    (the class of a function that is only declared is never looked at) -/
+def flagsFrozenDefRegion (ds : List Decl) : Bool :=
+  (fnNames ds).any (fun f => fnDefined (fnDecls ds f) && fnClass (fnDecls ds f) != fnClassFirst (fnDecls ds f))
+
 /-- the known finding proper: C11 requires an external definition, the first declaration was `inline` -/
 def inlineFrozenFinding (ds : List Decl) : Bool :=
   (fnNames ds).any (fun f => fnClass (fnDecls ds f) == .globalAlways && fnClassFirst (fnDecls ds f) != .globalAlways)
@@ -328,6 +333,12 @@ def tysAgree (D : List ObjDecl) : Bool :=
 /-- the side condition of `C15_symbols_partial` -/
 def symbolsSide (ds : List Decl) : Bool :=
   refsOrdered ds [] [] && (objNames ds).all (fun x => tysAgree (objDecls ds x))
+
+/-- all hypotheses of `C15_symbols_partial` in one predicate (`Props.C15.InScope ds && symbolsSide ds`, by `rfl` in
+    Props/C15.lean); the driver prints it so that the check can tell which generated units the theorem covers -/
+def symbolsScope (ds : List Decl) : Bool :=
+  valid ds && !flagsFrozenDefRegion ds && !deadStaticLocalRegion ds && !compositeSizeRegion ds &&
+  !externInitAfterStaticRegion ds && symbolsSide ds
 
 /-! ### which address forms are valid for which entity (x86-64 psABI 3.5 code models, ELF TLS ABI)
 
